@@ -23,6 +23,7 @@ import (
 	"strconv"
 	"strings"
 	"sync"
+	"syscall"
 	"testing/synctest"
 	"time"
 
@@ -68,29 +69,32 @@ type W3Cfg struct {
 }
 
 type simNode struct {
-	idx     int
-	id      uint64
-	port    string
-	addr    string
-	dir     string
-	join    []string
-	inc     int // incarnation
-	alive   bool
-	dead    map[int]bool // incarnations that crashed
-	server  *anndb.Server
-	parts   *anndb.VerifParts
-	svcData pb.DataManagerServer
-	svcDM   pb.DatasetManagerServer
-	svcSrch pb.SearchServer
-	svcNM   pb.NodesManagerServer
-	hookHit int // durable-write boundary hits of the current incarnation
-	crashAt int // crash when hookHit reaches this (0: never)
-	fatal   []string
-	stalled bool
-	joined  bool          // JoinCluster returned: cmd/anndb would now be serving
-	joinAct time.Duration // simulated time of the node's last join activity (handshake begun or returned), -1: none
-	retired bool          // removed from the cluster and taken out of service for good
-	limbo   bool          // a removal was requested but never acknowledged: the node runs on, nothing is asserted about it
+	idx        int
+	id         uint64
+	port       string
+	addr       string
+	dir        string
+	join       []string
+	inc        int // incarnation
+	alive      bool
+	dead       map[int]bool // incarnations that crashed
+	server     *anndb.Server
+	parts      *anndb.VerifParts
+	svcData    pb.DataManagerServer
+	svcDM      pb.DatasetManagerServer
+	svcSrch    pb.SearchServer
+	svcNM      pb.NodesManagerServer
+	hookHit    int // durable-write boundary hits of the current incarnation
+	crashAt    int // crash when hookHit reaches this (0: never)
+	errAt      int // the errAt-th next Save / local snapshot fails with a disk error (0: never)
+	errSeen    int
+	diskErrInc int // incarnation that was handed a disk error (its log.Fatal is the legal reaction)
+	fatal      []string
+	stalled    bool
+	joined     bool          // JoinCluster returned: cmd/anndb would now be serving
+	joinAct    time.Duration // simulated time of the node's last join activity (handshake begun or returned), -1: none
+	retired    bool          // removed from the cluster and taken out of service for good
+	limbo      bool          // a removal was requested but never acknowledged: the node runs on, nothing is asserted about it
 }
 
 type simCall struct {
@@ -418,6 +422,16 @@ func newSim(cfg W3Cfg, out *Outcome, wantLog bool) *Sim {
 		s.post(func() {
 			for _, n := range s.nodes {
 				if fmt.Sprintf("%x", n.id) == nid || nid == "" {
+					if n.diskErrInc != 0 && n.diskErrInc == n.inc && n.alive {
+						// fail-stop on a disk error is the legal reaction: the process exits
+						s.logf("n%d exits after the disk error: %s", n.idx, msg)
+						s.out.Stat("process_exit_after_disk_error", 1)
+						s.stopNode(n, true)
+						if nid != "" {
+							break
+						}
+						continue
+					}
 					n.fatal = append(n.fatal, msg)
 					s.logf("n%d log.Fatal: %s", n.idx, msg)
 					if nid != "" {
@@ -522,6 +536,7 @@ func (s *Sim) startNode(n *simNode) error {
 	n.inc++
 	n.hookHit = 0
 	n.crashAt = 0
+	n.errAt, n.errSeen = 0, 0
 	n.fatal = nil
 	cfg := anndb.NewConfig()
 	cfg.RaftNodeId = n.id
@@ -727,6 +742,18 @@ func (s *Sim) ioHook(db *badger.DB, group uuid.UUID, op string, before bool) err
 	}
 	if before {
 		n.hookHit++
+	}
+	if before && n.errAt > 0 && (strings.HasPrefix(op, "save") || op == "snapshot") {
+		n.errSeen++
+		if n.errSeen >= n.errAt {
+			// the disk refuses the write (full disk): nothing is written
+			n.errAt, n.errSeen = 0, 0
+			n.diskErrInc = n.inc
+			idx := n.idx
+			s.out.Stat("fault_disk_error_"+op, 1)
+			s.post(func() { s.logf("n%d: disk error injected at %s of group %s", idx, op, shortG(group)) })
+			return syscall.ENOSPC
+		}
 	}
 	if n.crashAt > 0 {
 		// position numbering: boundary k "before" = 2k-1, "after" = 2k
